@@ -100,8 +100,23 @@ func (mgr *bindingManager) create(addr net.Addr) *binding {
 	mgr.mutex.Lock()
 	defer mgr.mutex.Unlock()
 
+	// The next number may still be held by an earlier peer once the counter
+	// has wrapped: take the next free one, or none when all are in use.
+	number, free := uint16(0), false
+	for i := 0; i <= int(maxChannelNumber-minChannelNumber); i++ {
+		number = mgr.assignChannelNumber()
+		if _, used := mgr.chanMap[number]; !used {
+			free = true
+
+			break
+		}
+	}
+	if !free {
+		return nil
+	}
+
 	b := &binding{
-		number:       mgr.assignChannelNumber(),
+		number:       number,
 		addr:         addr,
 		mgr:          mgr,
 		_refreshedAt: time.Now(),
